@@ -226,7 +226,41 @@ def bi_tuple(eng, args, kwargs, fr):
         return materialize_genexp(eng, v, "tuple")
     if isinstance(v, SeqIter) and v.kind == "sortedkey":
         return v.data
+    if isinstance(v, SeqIter) and v.kind == "filtered":
+        part = filtered_key(eng, v)
+        if part is not None:
+            return part[0]
     raise Unsupported("tuple(%s)" % type(v).__name__)
+
+
+def recognize_member_pred(eng, f):
+    """f(i) is `i in S` or `i not in S` for a set / dict S that does not depend on i  ->  (S as array, inside?)"""
+    i = eng.fresh("label", "m")
+    eng.spec += 1
+    try:
+        phi = _to_z3bool(eng.tobool(eng.call(f, [i], {})))
+    finally:
+        eng.spec -= 1
+    phi = z3.simplify(phi)
+    inside = True
+    if z3.is_not(phi):
+        phi, inside = phi.arg(0), False
+    if z3.is_select(phi) and phi.arg(1).eq(i.e):
+        return phi.arg(0), inside
+    return None
+
+
+def filtered_key(eng, it):
+    """filter(pred, key) over a symbolic key with a membership predicate -> (the kept subsequence as key SV, S, inside)"""
+    f, seq = it.data
+    if not (isinstance(seq, SV) and seq.t == "key"):
+        return None
+    rec = recognize_member_pred(eng, f)
+    if rec is None:
+        return None
+    S, inside = rec
+    fo, fi = eng.facts.split(seq.e, S)
+    return SV(fi if inside else fo, "key"), S, inside
 
 
 def relabel_genexp(eng, gen):
@@ -844,10 +878,83 @@ def eval_comprehension(eng, n, fr, kind):
             if not eng.feasible(val.e != T.xval(i.e)):
                 return SeqIter("mappedlist", ("xval", src))
         raise Unsupported("list comprehension over key: element not recognised")
+    if kind == "list" and isinstance(src, SeqIter) and src.kind == "filtered" and not g.ifs and isinstance(g.target, ast.Name):
+        part = filtered_key(eng, src)
+        if part is not None:
+            kpart, S, inside = part
+            i = eng.fresh("label", "m")
+            sub = Frame(fr.closure, dict(fr.locals), fr.self_obj, fr.defining_cls)
+            sub.locals[g.target.id] = i
+            eng.spec += 1
+            try:
+                val = eng.eval(n.elt, sub)
+            finally:
+                eng.spec -= 1
+            rec = _lookup_source(eng, n.elt, g.target.id, sub) or _match_lookup(val, i)
+            if rec is not None:
+                return SeqIter("vallist", {"key": kpart, "S": S, "inside": inside, "dom": rec[0], "val": rec[1]})
+        raise Unsupported("list comprehension over a filtered key: element not recognised")
     comp = eng.comp_spec(fr)
     if comp is not None:
         return comp_by_contract(eng, n, fr, kind, src, comp)
     raise Unsupported("comprehension over symbolic %s" % type(src).__name__)
+
+
+def _lookup_source(eng, elt, var, fr):
+    """elt is `d[var]` or `d.get(var, 0)` with d a label-keyed dict value -> (dom, val) of d"""
+    d = None
+    if isinstance(elt, ast.Subscript) and isinstance(elt.slice, ast.Name) and elt.slice.id == var:
+        d = elt.value
+    elif isinstance(elt, ast.Call) and isinstance(elt.func, ast.Attribute) and elt.func.attr == "get" and \
+            len(elt.args) == 2 and isinstance(elt.args[0], ast.Name) and elt.args[0].id == var and \
+            isinstance(elt.args[1], ast.Constant) and elt.args[1].value == 0:
+        d = elt.func.value
+    if d is None:
+        return None
+    try:
+        dv = eng.eval(d, fr)
+    except Unsupported:
+        return None
+    if isinstance(dv, DictVal):
+        ver = eng.store_of(dv)
+        if ver.kind == "empty":
+            return z3.K(T.Label, z3.BoolVal(False)), z3.K(T.Label, z3.RealVal(0))
+        if ver.ksort == T.Label and ver.vsort == T.Real:
+            return ver.dom, ver.val
+    return None
+
+
+def _match_lookup(val, i):
+    """val is d[i] or d.get(i, 0) for a label-keyed dict d  ->  (dom array, val array)"""
+    if not (isinstance(val, SV) and val.t == "real"):
+        if val == 0:
+            # lookup in an empty dict literal: d.get(i, 0) == 0
+            return z3.K(T.Label, z3.BoolVal(False)), z3.K(T.Label, z3.RealVal(0))
+        return None
+    e = z3.simplify(val.e)
+    if z3.is_select(e) and e.arg(1).eq(i.e):
+        return z3.K(T.Label, z3.BoolVal(True)), e.arg(0)       # d[i]: the filter guarantees presence
+    if z3.is_app(e) and e.decl().kind() == z3.Z3_OP_ITE:
+        c, a, b = e.arg(0), e.arg(1), e.arg(2)
+        if z3.is_select(c) and c.arg(1).eq(i.e) and z3.is_select(a) and a.arg(1).eq(i.e) and z3.is_rational_value(b) and b.as_fraction() == 0:
+            return c.arg(0), a.arg(0)
+    return None
+
+
+def bi_np_prod(eng, args, kwargs, fr):
+    (v,) = args
+    if isinstance(v, SeqIter) and v.kind == "vallist":
+        d = v.data
+        spin = getattr(eng, "value_spin", False)
+        p, lk = eng.facts.value_product(d["key"].e, spin, d["inside"], d["S"], d["dom"], d["val"])
+        return SV(p, "real")
+    c = eng.concrete_iter(v)
+    if c is not None:
+        acc = 1
+        for x in c:
+            acc = eng.binop(ast.Mult(), acc, x)
+        return acc
+    raise Unsupported("np.prod of %s" % type(v).__name__)
 
 
 def materialize_genexp(eng, gen, kind):
